@@ -23,6 +23,8 @@ def sh(cmd, cwd=None, timeout=1800):
 
 
 def demo_cmd(src_dir):
+    if os.path.exists(os.path.join(src_dir, 'cmd.txt')):
+        return open(os.path.join(src_dir, 'cmd.txt')).read().strip().replace('{dir}', src_dir)
     if os.path.exists(os.path.join(src_dir, 'demo.sh')):
         return 'sh %s/demo.sh' % src_dir
     extra = ''
